@@ -85,6 +85,7 @@ impl<T: Write + Read + Seek> E57Writer<T> {
     pub fn register_extension(&mut self, extension: Extension) -> Result<()> {
         Extension::validate_name(&extension.namespace)?;
         Extension::validate_name_start(&extension.namespace)?;
+        Extension::validate_url(&extension.url)?;
         if self
             .extensions
             .iter()
